@@ -11,7 +11,15 @@ func (c c02Stringer) String() string { return c.s }
 type c02Struct struct {
 	F string
 	P *string
+	N c02NumStringer
 }
+
+// a value of NUMERIC kind that renders through String()
+type c02NumStringer int
+
+var c02NumTexts []string
+
+func (n c02NumStringer) String() string { return c02NumTexts[int(n)] }
 
 // routes by which the tainted text x can reach an output node (no opt-out involved)
 var c02Routes = []string{
@@ -61,6 +69,13 @@ var c02Routes = []string{
 	"{% set y = st %}{{ y }}",
 	"{% macro m(p) %}{{ p }}{% endmacro %}{{ m(st) }}",
 	"{% for i in sts %}{{ i }}{% endfor %}{{ sts|first }}{{ sts|join:\",\" }}",
+	// a Stringer of numeric kind (kind int, text from String()) on every route
+	"{{ ns }}",
+	"{{ s.N }}",
+	"{% for i in nss %}{{ i }}{% endfor %}",
+	"{% with p=ns %}{{ p }}{% endwith %}{% set q = ns %}{{ q }}",
+	"{% macro m(p) %}{{ p }}{% endmacro %}{{ m(ns) }}",
+	"{% firstof nothing ns %}{% for i in l %}{% cycle ns \"b\" %}{% endfor %}",
 	// tainted text as a parameter of the filter TAG (its result is written without further escaping)
 	"{% filter default:x %}{% endfilter %}",
 	"{% filter add:x %}a{% endfilter %}",
@@ -81,9 +96,11 @@ var c02OptOut = map[string]bool{"safe": true, "truncatechars_html": true, "trunc
 
 func c02Context(x string) Context {
 	xp := x
+	c02NumTexts = []string{x, "k"}
 	return Context{
+		"ns": c02NumStringer(0), "nss": []c02NumStringer{0, 1},
 		"x": x, "y": x,
-		"s":  c02Struct{F: x, P: &xp},
+		"s":  c02Struct{F: x, P: &xp, N: 0},
 		"l":  []string{x, "k"},
 		"m":  map[string]string{"k": x},
 		"mk": map[string]int{x: 1},
